@@ -50,6 +50,13 @@
   the `sig_*` theorems above are about; `sig_empty_before_completion` (any state other than final / Content-Length-
   required end state: "empty", nothing is read), `sig_is_core_when_complete`, `sig_panics_only_via_core`: the only way
   GetMsgSig could panic is through its core on a completed message — which `sig_never_panics*` exclude.
+  `Sipsp.Proofs.SigGuardSafe`: `sig_never_panics_any_verdict(_init)(_after_reset)(_schedule)` — after ANY legitimate
+  call or chain of resumed calls, WHATEVER verdict it ended with (OK, MoreBytes, missing Content-Length, any error),
+  GetMsgSig does not panic, and it answers "empty" unless the verdict was OK / missing-Content-Length
+  (`sig_empty_unless_complete`); `verdict_state_relation`, `state_fin_iff_ok`, `state_suspended_iff_morebytes`,
+  `state_err_iff_error`, `call_on_finished_object`: the exact relation between the verdict of a ParseSIPMsg call and
+  the state it leaves (no hypothesis at all); `sig_core_safe_after_noclen`. Tests pin that the CORE does panic on a
+  suspended / failed object: the guard is necessary.
   Assumed (as everywhere): arrays handed to Init are cleared (Go's Init does not clear them either).
 -/
 import Sipsp.Proofs.ProgressNA
@@ -59,6 +66,7 @@ import Sipsp.Proofs.SafeRest
 import Sipsp.Proofs.SigCompose
 import Sipsp.Proofs.AuditFixA
 import Sipsp.Proofs.SigGuard
+import Sipsp.Proofs.SigGuardSafe
 
 namespace Sipsp.C04
 open Sipsp
@@ -433,5 +441,48 @@ theorem sig_is_core_when_complete : type_of% @Sipsp.getMsgSig_complete := @Sipsp
 
 /-- **no panic in ANY state**: the only way `GetMsgSig` can panic is through its core on a completed message -/
 theorem sig_panics_only_via_core : type_of% @Sipsp.getMsgSig_panics_only_via_core := @Sipsp.getMsgSig_panics_only_via_core
+
+/-! ### GetMsgSig never panics, whatever verdict the parse ended with (proved in `Sipsp.Proofs.SigGuardSafe`) -/
+
+/-- **GetMsgSig never panics, whatever state the parse is in** — one legitimate call on an object with ANY history
+    (`ScReach`), ANY verdict: OK, MoreBytes, NoCLen, any error -/
+theorem sig_never_panics_any_verdict : type_of% @Sipsp.sig_never_panics_any_verdict := @Sipsp.sig_never_panics_any_verdict
+
+/-- **the first call after Init** (any previous contents of the object, cleared caller arrays of any capacity or
+    none): no legitimacy hypothesis left -/
+theorem sig_never_panics_any_verdict_init : type_of% @Sipsp.sig_never_panics_any_verdict_init := @Sipsp.sig_never_panics_any_verdict_init
+
+/-- **any history, then Reset, then one call** with any verdict -/
+theorem sig_never_panics_any_verdict_after_reset : type_of% @Sipsp.sig_never_panics_any_verdict_after_reset := @Sipsp.sig_never_panics_any_verdict_after_reset
+
+/-- **every chunk schedule from Init, whatever verdict the chain ends with** (OK, MoreBytes — the message is still
+    incomplete when the data at hand ends —, NoCLen, any error): GetMsgSig on the object does not panic — against
+    the buffer of the last call made, against every extension of it, in particular against the last (longest) buffer
+    of the schedule — and gives the same result on all of them -/
+theorem sig_never_panics_any_verdict_schedule : type_of% @Sipsp.sig_never_panics_any_verdict_schedule := @Sipsp.sig_never_panics_any_verdict_schedule
+
+/-- **"empty" unless the parse completed**: after a verdict other than OK and NoCLen — MoreBytes or any error — the
+    signature function answers "empty" (empty signature, no panic), whatever buffer it is given. Any call, any object. -/
+theorem sig_empty_unless_complete : type_of% @Sipsp.sig_empty_unless_complete := @Sipsp.sig_empty_unless_complete
+
+/-- **verdict / state relation of ParseSIPMsg** — EVERY call: any object (new, suspended, finished, failed), buffer,
+    offset, flags -/
+theorem verdict_state_relation : type_of% @Sipsp.sg_verdict_state := @Sipsp.sg_verdict_state
+
+/-- the final state `fin` is reached exactly with the verdict OK -/
+theorem state_fin_iff_ok : type_of% @Sipsp.sg_fin_iff_ok := @Sipsp.sg_fin_iff_ok
+
+/-- MoreBytes is the verdict of exactly the calls that leave the object suspended (first line / header block / body) -/
+theorem state_suspended_iff_morebytes : type_of% @Sipsp.sg_suspended_iff := @Sipsp.sg_suspended_iff
+
+/-- the error state is reached exactly with the error verdicts (everything but OK, NoCLen, MoreBytes) -/
+theorem state_err_iff_error : type_of% @Sipsp.sg_err_iff := @Sipsp.sg_err_iff
+
+/-- a call on an object in an end state (final, NoCLen, error) answers "bug" and leaves the error state -/
+theorem call_on_finished_object : type_of% @Sipsp.sg_terminal_call := @Sipsp.sg_terminal_call
+
+/-- **(2) the core is safe in the `noCLen` end state**: after a legitimate call that answered "Content-Length required
+    but missing" the body of GetMsgSig behind its guard does not panic -/
+theorem sig_core_safe_after_noclen : type_of% @Sipsp.sg_core_safe_noCLen := @Sipsp.sg_core_safe_noCLen
 
 end Sipsp.C04
